@@ -45,6 +45,7 @@ type clientLog struct {
 	graceful bool // closed with Close() after the last full message
 	abrupt   bool // closed in the middle of a message
 	writeErr bool
+	bursts   int // datagram bursts sent against a consumer standing still
 }
 
 var elems []regtable.Elem
@@ -118,10 +119,16 @@ func oneRun(c *hx.Ctx, k int, r *rand.Rand, proto string, nclients int, stopDuri
 	}
 	pauseSeed := r.Uint64()
 	var pn atomic.Uint64
+	var hold atomic.Int32
 	coll, err := lib.StartCollectorPaced(in, func() {
 		x := (pn.Add(1) * 0x9E3779B97F4A7C15) ^ pauseSeed
 		if x%16 == 0 {
 			time.Sleep(time.Duration(x>>8%300) * time.Microsecond)
+		}
+		// a datagram client in a burst asks the consumer to stand still for a moment (bounded), so that a backlog of
+		// dozens of datagrams of ONE exporter builds up inside the collector: they must still come out in order
+		for i := 0; i < 400 && hold.Load() > 0; i++ {
+			time.Sleep(500 * time.Microsecond)
 		}
 	})
 	if err != nil {
@@ -179,6 +186,17 @@ func oneRun(c *hx.Ctx, k int, r *rand.Rand, proto string, nclients int, stopDuri
 			if stream && cr.IntN(4) == 0 && nmsg > 0 {
 				abruptAt = 1 + cr.IntN(nmsg)
 			}
+			inBurst := false
+			defer func() {
+				if inBurst {
+					hold.Add(-1)
+				}
+			}()
+			burstFrom, burstTo := -1, -1
+			if !stream && nmsg >= 60 && cr.IntN(3) == 0 {
+				burstFrom = 1 + cr.IntN(nmsg-50)
+				burstTo = burstFrom + 40 + cr.IntN(nmsg-burstFrom-39)
+			}
 			for n := 1; n <= nmsg; n++ {
 				select {
 				case <-stopped:
@@ -191,7 +209,16 @@ func oneRun(c *hx.Ctx, k int, r *rand.Rand, proto string, nclients int, stopDuri
 					cl.abrupt = true
 					return
 				}
-				if !stream { // datagram pacing: at most 8 not-yet-delivered datagrams in flight
+				if n == burstFrom {
+					hold.Add(1)
+					inBurst = true
+					cl.bursts++
+				}
+				if n == burstTo {
+					hold.Add(-1)
+					inBurst = false
+				}
+				if !stream && !(n >= burstFrom && n < burstTo) { // datagram pacing: at most 8 not-yet-delivered datagrams in flight
 					for w := 0; w < 300 && n-len(coll.Get(cl.id)) > 8; w++ {
 						time.Sleep(100 * time.Microsecond)
 					}
@@ -352,6 +379,9 @@ func oneRun(c *hx.Ctx, k int, r *rand.Rand, proto string, nclients int, stopDuri
 	c.Add("messages_sent", int64(sentTotal))
 	c.Add("messages_delivered", int64(deliveredTotal))
 	c.Add("clients", int64(nclients))
+	for _, cl := range logs {
+		c.Add("udp_bursts_against_a_consumer_standing_still", int64(cl.bursts))
+	}
 	if !stream && !stopCalledEarly && sentTotal > 20 && deliveredTotal*2 < sentTotal {
 		c.Inconclusive(fmt.Sprintf("udp run %d: only %d of %d datagrams delivered", k, deliveredTotal, sentTotal))
 	}
